@@ -477,8 +477,8 @@ class NestedFrame(pd.DataFrame):
             if isinstance(packed_df, pd.Series):
                 # rows of packed_df correspond to the rows of df positionally;
                 # an index join would multiply the rows with repeated index labels
-                return df[base_columns].assign(**{name: packed_df.array})
-            return df[base_columns].join(packed_df)
+                return NestedFrame(df[base_columns].assign(**{name: packed_df.array}))
+            return NestedFrame(df[base_columns].join(packed_df))
         # or just return the packed_df as a nestedframe if no base cols
         else:
             return NestedFrame(packed_df.to_frame())
